@@ -62,6 +62,12 @@ func executeCompaction(db *DB) (compactionMetadata *proto.CompactionMetadata, er
 		return nil, nil
 	}
 
+	// tables can be empty (everything in them was deleted and dropped by an earlier compaction), a run of them is still
+	// merged into an (empty) table; the bloom filter of the writer cannot be sized for zero elements
+	if numRecords == 0 {
+		numRecords = 1
+	}
+
 	// make sure we're always compacting with the right order in mind
 	sort.Strings(paths)
 
